@@ -20,7 +20,7 @@
      call leaves behind, exactly: nothing written; the state record is untouched except initProgram's inc_, which no later call can observe),
      c05_refused_no_trace (the state after a refused call is indistinguishable from the state before), c05_continue_accepted (EVERY history: the
      text is the text of the accepted calls alone, from every indistinguishable state), c05_continue_roundtrip (... and is read back as their
-     normal form).  The former exception (fHead_ set by a refused weight rule with empty head) was a defect, repaired in /repo d5c8ba1.
+     normal form).  The former exception (fHead_ set by a refused weight rule with empty head) was a defect, repaired in /repo 82b5ba2.
    NOT covered by the theorem (outside the property's quantifier, see notes/C05.md): names containing LF/CR/NUL, negative rule-body weights,
    minimize/external after symbols, |minimize weight| = 2^31, values outside the C types. *)
 Require Import V.Lib.Base V.Lib.Calls V.Lib.Dec V.C09.Spec V.Gen.Consts V.Gen.Consts_C07 V.C07.Model V.C07.ProofsLex.
@@ -293,7 +293,7 @@ Proof. exact cont_roundtrip. Qed.
 Print Assumptions c05_continue_roundtrip.
 
 (* non-vacuity: a history with six refused calls (project; negative bound; general output as FIRST output of the step; heuristic; weight rule with
-   choice head; weight rule with EMPTY head and negative bound - the shape of the repaired defect d5c8ba1: before the repair it left fHead_ set and
+   choice head; weight rule with EMPTY head and negative bound - the shape of the repaired defect 82b5ba2: before the repair it left fHead_ set and
    the compute statement listed the false atom 7) followed by minimize / external / rules / outputs / compute: the accepted calls are a program of
    the fragment, the text is that of the accepted calls and comes back as their normal form (no ':- 7') *)
 Definition ex_cont : list call :=
